@@ -519,7 +519,12 @@ def _traverse_avp_tree(avps: list[Avp],
                 # cannot go further anyway
                 found.append(avp)
             else:
-                found += _traverse_avp_tree(avp.value, code_and_vendor_path[1:])
+                try:
+                    members = avp.value
+                except AvpDecodeError:
+                    # a group that cannot be decoded has no members to search
+                    continue
+                found += _traverse_avp_tree(members, code_and_vendor_path[1:])
 
     return found
 
